@@ -165,6 +165,41 @@ def _rest_one(c):
         if not np.abs(tot).max() <= 1e-10 * sc:
           bad(f'steady:rest:{f}', f'{cls}: total {f} tendency of the resting isothermal atmosphere over orography (row {r}, l={l}) is '
               f'{np.abs(tot).max():.3e}; the orography term alone is {sc:.3e}')
+  # the library's own constructor of the flat member of this family (primitive_equations_states.isothermal_rest_atmosphere,
+  # no orography, no pressure perturbation): at rest, isothermal at T0 on every level, ln ps = ln p0 everywhere, and steady
+  try:
+    from dinosaur import primitive_equations_states as pes, xarray_utils, coordinate_systems, sigma_coordinates
+  except ImportError:
+    pes = None
+  if pes is not None and hasattr(pes, 'isothermal_rest_atmosphere') and l == 1:
+    units = scales.units
+    coords = coordinate_systems.CoordinateSystem(grid, sigma_coordinates.SigmaCoordinates(np.asarray(LEVELS[K], np.float64)))
+    for p0 in (3e4, 1e5):
+      fn, aux = pes.isothermal_rest_atmosphere(coords, specs, tref=T0 * units.degK, p0=p0 * units.pascal)
+      st = fn(jax.random.PRNGKey(int(p0) % 7))
+      want_lnps = float(np.log(float(specs.nondimensionalize(p0 * units.pascal))))
+      ref = np.asarray(aux[xarray_utils.REF_TEMP_KEY], np.float64)
+      oro = np.asarray(aux[xarray_utils.OROGRAPHY], np.float64)
+      if ref.shape != (K,) or not np.abs(ref - T0).max() <= 1e-13 * T0:
+        bad('constructor:rest:reference_temperature', f'isothermal_rest_atmosphere(tref={T0} K) returns reference temperatures {ref.tolist()}')
+      if np.abs(oro).max() != 0:
+        bad('constructor:rest:orography', f'the flat isothermal_rest_atmosphere returns a non-zero orography (max {np.abs(oro).max():.3e})')
+      for f in ('vorticity', 'divergence', 'temperature_variation'):
+        x = np.asarray(getattr(st, f))
+        if x.shape != (K,) + tuple(grid.modal_shape) or np.abs(x).max() != 0:
+          bad(f'constructor:rest:{f}', f'the resting isothermal state has a non-zero (or mis-shaped, {x.shape}) {f}')
+      nod = np.asarray(grid.to_nodal(st.log_surface_pressure))[..., :grid.longitude_nodes, :grid.latitude_nodes]   # padded layouts carry padding nodes
+      if not np.abs(nod - want_lnps).max() <= 1e-11 * abs(want_lnps):
+        bad('constructor:rest:log_surface_pressure', f'p0={p0} Pa: ln ps of the flat resting state ranges over [{nod.min()!r}, {nod.max()!r}], '
+            f'ln of the non-dimensional p0 is {want_lnps!r}')
+      eq = pe.PrimitiveEquations(ref, grid.to_modal(jnp.asarray(oro)), coords, specs)
+      ex, im = eq.explicit_terms(st), eq.implicit_terms(st)
+      sc = L * (L + 1) / a ** 2 * Rgas * T0 * abs(want_lnps) + 1e-300
+      for f in ('vorticity', 'divergence', 'temperature_variation', 'log_surface_pressure'):
+        err = np.abs(np.asarray(getattr(ex, f)) + np.asarray(getattr(im, f))).max()
+        if not np.isfinite(err) or err > 1e-10 * sc:
+          bad(f'steady:constructor:rest:{f}', f'p0={p0} Pa: total {f} tendency of the state built by isothermal_rest_atmosphere is {err:.3e} '
+              f'(pressure-gradient scale {sc:.3e})')
   return out
 
 
@@ -201,6 +236,40 @@ def _jet_one(c):
     if not np.isfinite(err) or err > 1e-10 * scale:
       bad(f'steady:jet:{f}', f'{NL} layer(s), densities {rho.tolist()}: total {f} tendency of the balanced jet is {err:.3e}; the '
           f'pressure-gradient term alone is {scale:.3e}')
+  # the library's own constructors of balanced jets (shallow_water_states.one_layer / multi_layer): the state they build is the
+  # one the machine's Construct algebra predicts (vorticity, zero-mean layer potentials from the coupling matrix), and at the
+  # rotation rate the constructor assumes (2 Omega = 1) it is steady on a sphere of any radius
+  try:
+    from dinosaur import shallow_water_states as sws
+  except ImportError:
+    sws = None
+  if sws is not None and hasattr(sws, 'multi_layer') and 'Mc' in res[0]:
+    mu1 = np.asarray(grid.nodal_axes[1], np.float64)
+    u = np.stack([np.sqrt(1.0 - mu1 ** 2) * _poly(res[i]['V'], mu1) for i in range(NL)])
+    lib = sws.multi_layer(jnp.asarray(u), rho, coords)
+    Mc = np.stack([_poly(res[i]['Mc'], mu) for i in range(NL)])
+    want_pot = np.stack([modal(x) for x in np.linalg.solve(C, Mc.reshape(NL, -1)).reshape(Mc.shape)])
+    want_pot[:, 0, 0] = 0.0
+    for f, want in (('vorticity', vor), ('divergence', np.zeros_like(vor)), ('potential', want_pot)):
+      got = np.asarray(getattr(lib, f))
+      err = np.abs(got - want).max() if got.shape == want.shape else np.inf
+      if not err <= 1e-11 * (np.abs(want).max() + 1.0):
+        bad(f'constructor:jet:{f}', f'{NL} layer(s), densities {rho.tolist()}: shallow_water_states.multi_layer returns a {f} that differs '
+            f'from the balanced state of the specification by {err:.3e}')
+    if NL == 1 and hasattr(sws, 'one_layer'):
+      one = sws.one_layer(jnp.asarray(u[0]), grid)
+      for f in ('vorticity', 'divergence', 'potential'):
+        d = np.abs(np.asarray(getattr(one, f)) - np.asarray(getattr(lib, f))[0]).max()
+        if not d <= 1e-12 * (np.abs(np.asarray(getattr(lib, f))).max() + 1.0):
+          bad(f'constructor:jet:one_layer:{f}', f'one_layer and multi_layer with a single layer disagree on {f} by {d:.3e}')
+    if abs(omega - 0.5) < 1e-15:
+      ex, im = eq.explicit_terms(lib), eq.implicit_terms(lib)
+      scale = float(np.abs(np.asarray(im.divergence)).max()) + 1e-300
+      for f in ('vorticity', 'divergence', 'potential'):
+        err = np.abs(np.asarray(getattr(ex, f)) + np.asarray(getattr(im, f))).max()
+        if not np.isfinite(err) or err > 1e-10 * scale:
+          bad(f'steady:constructor:{f}', f'{NL} layer(s), densities {rho.tolist()}, radius {a}: total {f} tendency of the state built by '
+              f'shallow_water_states.multi_layer is {err:.3e}; the pressure-gradient term alone is {scale:.3e}')
   return out
 
 
@@ -466,6 +535,10 @@ def run(ctx):
   }
   r = jobs['balanced'].result()
   ctx.require_actions(r, ['Solid', 'Rest', 'Jet'])
+  # the balanced-jet constructor as found (meridional derivatives without the metric factor 1/a) must be refuted by TLC
+  ra = ctx.tlc('Balanced', 'Balanced_asfound.cfg', expect_violation=True, tag='asfound', coverage=False, workers=2)
+  if not ra.violated:
+    raise common.MachineryError('TLC did not refute the as-found balanced-jet constructor (Balanced_asfound.cfg)')
   items = []
   for i, c in enumerate(r.cases):
     fam = c['cfg']['family']
